@@ -29,6 +29,10 @@ def scenarios(tier, seed):
 def run(tier, seed):
     rep = Report("C06", tier, seed)
     rep.add_mc("MC_OutFile", tlc.model_check("MC_OutFile", "MC_OutFile.cfg" if tier == "thorough" else "MC_OutFile_quick.cfg", must_take=["Step", "Finish"]))
+    rep.add_mc("MC_Ladim(dense)", tlc.model_check("MC_Ladim", "MC_Ladim_dense.cfg", must_take=["Call"], timeout=1800),
+               note="dense layout on the composed model: DenseAddressing (the column written is the particle's identifier) besides the identity / record invariants")
+    rep.add_mc("MC_Ladim_densecompact(control)", tlc.expect_refuted("MC_Ladim", "MC_Ladim_densecompact.cfg", "DenseAddressing"),
+               note="control: removing the dead after every step (a tidy-up that is harmless for the sparse layout) is refuted for the dense layout")
     scs = scenarios(tier, seed)
     traces = pmap("harness.e2e", "run_e2e", scs)
     rep.add_tv("e2e-records", "LadimTrace", scs, traces, tlc.validate_traces("LadimTrace", traces, batch_events=1500), family=FAMILY)
